@@ -56,24 +56,25 @@ func (l *c09Log) add(e c09Event) {
 }
 
 type c09Peer struct {
-	log     *c09Log
-	acts    []c09Act
-	mode    string      // accept | accept-close | noread | noread-early | tls | tls-slow | tls-silent | tls-untrusted
-	tlsConf *tls.Config // tls modes: the server side configuration
-	hsMs    int         // tls-slow: the peer starts its side of the handshake this long after accepting
-	earlyMs int         // noread-early: after this delay the peer writes a reply for each of the ids 1..earlyN
-	earlyN  int
-	ln      net.Listener
-	uc      *net.UDPConn
-	fds     []int      // raw sockets (refuse / stall)
-	held    []net.Conn // connections that fill the accept queue (stall)
-	port    int
-	nreq    int32
-	mu      sync.Mutex
-	conns   []net.Conn
-	done    []int32 // ids of requests already answered (for forged replies)
-	pending sync.WaitGroup
-	closed  int32
+	log                *c09Log
+	acts               []c09Act
+	mode               string      // accept | accept-close | noread | noread-early | tls | tls-slow | tls-silent | tls-untrusted
+	tlsConf            *tls.Config // tls modes: the server side configuration
+	sweepT, sweepCalls int         // action "sweep": the callers' timeout in ms, calls per caller
+	hsMs               int         // tls-slow: the peer starts its side of the handshake this long after accepting
+	earlyMs            int         // noread-early: after this delay the peer writes a reply for each of the ids 1..earlyN
+	earlyN             int
+	ln                 net.Listener
+	uc                 *net.UDPConn
+	fds                []int      // raw sockets (refuse / stall)
+	held               []net.Conn // connections that fill the accept queue (stall)
+	port               int
+	nreq               int32
+	mu                 sync.Mutex
+	conns              []net.Conn
+	done               []int32 // ids of requests already answered (for forged replies)
+	pending            sync.WaitGroup
+	closed             int32
 }
 
 const c09EarlyPay = 0xEA51EA51
@@ -261,6 +262,10 @@ func (p *c09Peer) serve(c net.Conn) {
 			pay = uint32(uint8(req.SBuffer[0]))<<24 | uint32(uint8(req.SBuffer[1]))<<16 | uint32(uint8(req.SBuffer[2]))<<8 | uint32(uint8(req.SBuffer[3]))
 		}
 		id := req.IRequestId
+		if req.SFuncName == "tars_ping" { // the adapter's keep-alive ping (one-way): not a call of the script
+			p.log.add(c09Event{Kind: "ping", Call: -1, ID: id})
+			continue
+		}
 		k := int(atomic.AddInt32(&p.nreq, 1)) - 1
 		act := p.acts[len(p.acts)-1]
 		if k < len(p.acts) {
@@ -271,6 +276,16 @@ func (p *c09Peer) serve(c net.Conn) {
 			continue
 		}
 		delay := time.Duration(act.DelayMs) * time.Millisecond
+		if act.Do == "sweep" {
+			// even calls of a caller: the reply is timed at the caller's deadline, swept in 1 ms steps from -3 to +5 ms over
+			// the calls; odd calls: answered late enough to be waiting while the previous call's reply is still around
+			call := int(pay & 0x0FFFFFFF)
+			if p.sweepCalls > 0 && (call%p.sweepCalls)%2 == 0 {
+				delay = time.Duration(p.sweepT+(call/2)%9-3) * time.Millisecond
+			} else {
+				delay = 60 * time.Millisecond
+			}
+		}
 		sendOwn := func(times int) {
 			p.pending.Add(1)
 			go func() {
@@ -292,7 +307,7 @@ func (p *c09Peer) serve(c net.Conn) {
 			}()
 		}
 		switch act.Do {
-		case "reply":
+		case "reply", "sweep":
 			sendOwn(1)
 		case "dup":
 			sendOwn(2)
